@@ -52,7 +52,7 @@ def body(run):
     run.mc("MC_Hashes", cfg="MC_Hashes_laws_thorough.cfg" if t else "MC_Hashes_laws.cfg", workers=run.pick(4, 8))
     out, meta = run.drive("c15", timeout=3000)
     run.absorb(meta)
-    validate_parallel(run, out, meta, run.pick(6, 8))
+    validate_parallel(run, out, meta, run.pick(8, 10))
     run.selftest(out, meta, gen="rand", field="arg")
     run.selftest(out, meta, gen="hexa", field="v")
     run.assumptions += [
